@@ -43,8 +43,8 @@ scf.for %i = %c0 to %c64 step %c5 {
     }
 }
 
-// CHECK-NEXT:    %{{.*}} = arith.constant 2 : index
-// CHECK-NEXT:    %{{.*}} = arith.muli %c64, %{{.*}} : index
+// 13 outer iterations x 3 inner iterations, in steps of 5
+// CHECK-NEXT:    %{{.*}} = arith.constant 195 : index
 // CHECK-NEXT:    scf.for %{{.*}} = %c0 to %{{.*}} step %c5 {
 // CHECK-NEXT:      %{{.*}} = arith.constant 8 : index
 // CHECK-NEXT:      "test.op"(%{{.*}}) : (index) -> ()
